@@ -127,6 +127,25 @@ def rand_points(rng, n, shape):
         a, b = unit_quat(rng)[:3], unit_quat(rng)[:3]
         return [[size * (u * a[i] + v * b[i]) for i in range(3)] for u, v in
                 ((rng.uniform(-1, 1), rng.uniform(-1, 1)) for _ in range(n))]
+    if shape == 'ideal':
+        # idealised polyhedra of a fragment library, axis-aligned and exactly representable: octahedron (arms of equal
+        # or different lengths), cube, tetrahedron, square — with the special rotations the correlation sums cancel
+        # exactly (zero diagonal, equal diagonal elements, zero off-diagonal elements of the 4x4 form)
+        a, b, c = (rng.choice([1.0, 1.5, 2.0, 3.0]) for _ in range(3))
+        if rng.random() < 0.5:
+            b = c = a
+        kind = rng.choice(['octa', 'cube', 'tetra', 'square+1'])
+        if kind == 'octa':
+            pts = [[a, 0.0, 0.0], [-a, 0.0, 0.0], [0.0, b, 0.0], [0.0, -b, 0.0], [0.0, 0.0, c], [0.0, 0.0, -c]]
+        elif kind == 'cube':
+            pts = [[sx * a, sy * b, sz * c] for sx in (1.0, -1.0) for sy in (1.0, -1.0) for sz in (1.0, -1.0)]
+        elif kind == 'tetra':
+            pts = [[a, a, a], [a, -a, -a], [-a, a, -a], [-a, -a, a]]
+        else:
+            pts = [[a, 0.0, 0.0], [-a, 0.0, 0.0], [0.0, b, 0.0], [0.0, -b, 0.0], [0.0, 0.0, c], [0.0, 0.0, 0.0]]
+        if rng.random() < 0.3:
+            pts.append([0.0, 0.0, 0.0])
+        return pts
     if shape == 'grid':  # coordinates like a fragment library: few decimals, repeated values
         return [[round(rng.uniform(-size, size), 1) for _ in range(3)] for _ in range(n)]
     return [[rng.uniform(-size, size) for _ in range(3)] for _ in range(n)]
@@ -176,13 +195,26 @@ def make_prelude(rng):
 
 def make_fit_case(rng, prelude=True):
     n = rng.choice([3, 3, 4, 5, 6, 8, 10, 14, 20, 30, rng.randint(3, 30)])
-    shape = rng.choices(['box', 'planar', 'grid'], [6, 1, 2])[0]
+    shape = rng.choices(['box', 'planar', 'grid', 'ideal'], [6, 1, 2, 1])[0]
     src = rand_points(rng, n, shape)
     src = shift(src, cen(src), -1.0)
     q, qkind = make_rotation(rng)
+    if shape == 'ideal' and rng.random() < 0.7:
+        q, qkind = list(rng.choice(SPECIAL_QUATS)), 'special'
     noise = rng.choice([0.0, 0.0, 0.0, 1e-4, 0.02, 0.3, 2.0])
+    if shape == 'ideal' and rng.random() < 0.7:
+        noise = 0.0
     mirror = noise > 0 and rng.random() < 0.1
     tgt = apply(quat_to_R(q), src)
+    if shape == 'ideal' and rng.random() < 0.5:
+        # one of the 24 rotations of the cube as an EXACT signed permutation matrix (no rounding in the target at all)
+        perm = rng.choice([(0, 1, 2), (1, 2, 0), (2, 0, 1), (0, 2, 1), (2, 1, 0), (1, 0, 2)])
+        even = perm in ((0, 1, 2), (1, 2, 0), (2, 0, 1))
+        sg = [rng.choice([1.0, -1.0]) for _ in range(3)]
+        if (sg[0] * sg[1] * sg[2] > 0) != even:
+            sg[2] = -sg[2]
+        tgt = [[sg[i] * p[perm[i]] for i in range(3)] for p in src]
+        qkind = 'cube-group'
     if mirror:
         tgt = [[-p[0], p[1], p[2]] for p in tgt]
     if noise:
